@@ -161,26 +161,34 @@ def invoke(state_dir, srcs, opts, fault=None):
 
 
 # ------------------------------------------------------------------ variable-font histories ------
-def _vf_write(d, present):
-    """two masters (three glyphs each, the second master's coordinates moved) + the TOML; `present` = glyph indices kept"""
+def _vf_write(d, present, edited=False):
+    """two masters (three glyphs each, the second master's coordinates moved) + the TOML; `present` = glyph indices kept;
+    `edited`: the sources of the *non-default* master hold other coordinates (the default master's are left alone). Only files whose content changes are written,
+    so that along a history nothing but the edit itself looks new to ninja"""
     import toml
     from vmc.props import c18
 
     masters, _ = c18.master_scenes({"scene": "three_glyphs", "variant": "translate", "masters": "two_default_min"})
+    other, _ = c18.master_scenes({"scene": "three_glyphs", "variant": "scale", "masters": "two_default_min"})
     cfg = {"output_file": "VF.ttf", "color_format": "glyf_colr_1", "axis": {"wght": {"name": "Weight", "default": 300}}, "master": {}}
     seen = Path(WS) if namespaces_work() else d
+    want = {}
     for i, gl in enumerate(masters):
-        md = d / "src" / f"m{i}"
-        shutil.rmtree(md, ignore_errors=True)
-        md.mkdir(parents=True)
         names = []
         for j, g in enumerate(gl):
             if j in present:
                 n = f"emoji_u{'_'.join('%04x' % c for c in g.cps)}.svg"
-                (md / n).write_text(g.svg())
+                want[d / "src" / f"m{i}" / n] = (other[i][j] if edited and i == 1 else g).svg()
                 names.append(str(seen / "src" / f"m{i}" / n))
         cfg["master"][f"m{i}"] = {"style_name": f"M{i}", "position": {"wght": [300, 700][i]}, "srcs": names}
-    (d / "vf.toml").write_text(toml.dumps(cfg))
+    want[d / "vf.toml"] = toml.dumps(cfg)
+    for f in list((d / "src").rglob("*.svg")) if (d / "src").exists() else []:
+        if f not in want:
+            f.unlink()
+    for f, text in want.items():
+        f.parent.mkdir(parents=True, exist_ok=True)
+        if not f.exists() or f.read_text() != text:
+            f.write_text(text)
 
 
 def _vf_invoke(d):
@@ -205,19 +213,26 @@ def exec_vf(case):
     try:
         d = root / "w"
         d.mkdir()
-        for present in case["sets"]:
-            _vf_write(d, set(present))
+        edits = case.get("edits") or [False] * len(case["sets"])
+        for present, ed in zip(case["sets"], edits):
+            _vf_write(d, set(present), ed)
             rc, err, got = _vf_invoke(d)
             if rc != 0:
-                return [bad("C09.converges", f"variable-font history {case['sets']}: invocation exits {rc}: {err}")]
+                # a state whose clean build fails as well is an unusable input, correctly refused
+                c0 = root / "clean0"
+                c0.mkdir()
+                _vf_write(c0, set(present), ed)
+                if _vf_invoke(c0)[0] != 0:
+                    return [{"status": "rejected", "clause": "C09.state", "fp": "vf:refused"}]
+                return [bad("C09.converges", f"variable-font history {case['sets']} (edits {edits}): invocation exits {rc}: {err}")]
         c = root / "clean"
         c.mkdir()
-        _vf_write(c, set(case["sets"][-1]))
+        _vf_write(c, set(case["sets"][-1]), edits[-1])
         rc, err, want = _vf_invoke(c)
         if rc != 0 or want is None:
             return [{"status": "harness-error", "clause": "harness.vf", "detail": f"clean VF build fails: {err}"}]
         if got != want:
-            return [bad("C09.converges", f"variable-font history of source sets {case['sets']}: VF.ttf differs from the clean build of the final set")]
+            return [bad("C09.converges", f"variable-font history of source sets {case['sets']} (non-default master edited: {edits}): VF.ttf differs from the clean build of the final state")]
         return [ok("C09.state", "vf:" + "-".join(str(len(p)) for p in case["sets"]))]
     finally:
         shutil.rmtree(root, ignore_errors=True)
@@ -447,8 +462,10 @@ def run(report, tier, only=None):
             frontier = nxt
         # variable-font histories: remove a glyph from every master, put it back, start small and grow
         vf_cases = [{"kind": "vf", "sets": s_} for s_ in ([[0, 1, 2], [0, 1]], [[0, 1, 2], [0, 1], [0, 1, 2]], [[0, 1], [0, 1, 2]], [[0, 1, 2], [1, 2]])]
+        # ... and histories that edit one source of the non-default master only (and take the edit back)
+        vf_cases += [{"kind": "vf", "sets": [[0, 1, 2]] * len(e_), "edits": e_} for e_ in ([False, True], [True, False], [False, True, False])]
         if tier == "quick":
-            vf_cases = vf_cases[:2]
+            vf_cases = vf_cases[:2] + vf_cases[4:5]
         for c_, vs in zip(vf_cases, pool.run_cases(exec_vf, vf_cases, timeout=1800, seed=report.seed, jobs=4, chunksize=1)):
             n_states += 1
             n_trans += len(c_["sets"]) + 1
